@@ -34,6 +34,11 @@ def check(run):
     s, fq = inc.s, inc.fq
     E = check_guard_and_counter(inc, "COUNT", "pfi")
     tracker_operator(run, prog, cls, "SAME", "pfi.operator")
+
+    from .c06 import depends_on
+    depends_on(run, "C10")
+    depends_on(run, "C12", {"TYPESTATE", "NOMUT"})
+    depends_on(run, "C06", {"MERGE", "KEYS", "COUNT"})
     # ---- the per-feature loop --------------------------------------------------------------------
     imps = [(ev, ctx) for ev, ctx in walk(s.events) if is_call_to(ev, inc.imf, "impute")]
     run.need(imps, f"{fq} never calls the imputer")
